@@ -13,6 +13,7 @@ from hv.common import EXIT_MACHINERY, Ctx, MachineryError
 CHECKS = {
     "C02": "hv.checks.fsm", "C03": "hv.checks.fsm", "C07": "hv.checks.fsm", "C09": "hv.checks.fsm",
     "C10": "hv.checks.fsm", "C17": "hv.checks.fsm", "C18": "hv.checks.fsm",
+    "C04": "hv.checks.fsm", "C05": "hv.checks.fsm", "C06": "hv.checks.fsm", "C20": "hv.checks.fsm",
 }
 
 
